@@ -24,6 +24,12 @@ type Parse.ps_case; `Parse.bad_parse_cases 0 cases` lists the cases where
     does not produce these bytes, `graph_of tree` is not the library's graph, `tree_of (parse ...)` is not the tree, the
     path table extents are not `ps_ptr_exts tree`, or the image is shorter than the layout.
 
+TRUNCATED IMAGES: a case may carry a third component ('cut', k, gen): the written image is cut inside the data of its
+LAST file (k selects the offset: at its first byte, 1 byte in, the middle, one block in, 1 byte short); gen 1 renders
+the cut image itself (opened object: record and inode lengths after the truncation branch of _walk_directories, the
+second image differs from the cut one), gen 2 renders the image that the object which opened the cut image WROTE
+(reopened: lengths stable, third image = second image).  No writer's tree is given for them.
+
     cases(seed, n) -> n histories (boundary ones first, then random ones drawn from `seed`)
     render(case)   -> Coq term
 
@@ -103,6 +109,20 @@ def h_random_links(rng, nops):
     return out
 
 
+def truncated_cases():
+    hs = [('t_one', [('file', '/A.;1', 5000)]),
+          ('t_two', [('dir', '/D'), ('file', '/D/' + fname(1, 12), 3), ('file', '/' + fname(2, 9), 0),
+                     ('file', '/D/' + fname(3, 12), 7000)]),
+          ('t_link', [('file', '/' + fname(1, 9), 10), ('dir', '/Z'), ('file', '/Z/' + fname(2, 12), 4097),
+                      ('link', '/Z/' + fname(2, 12), '/Z/L.;1'), ('link', '/Z/' + fname(2, 12), '/L2.;1')])]
+    cs = []
+    for nm, ops in hs:
+        for k in range(5):
+            for gen in (1, 2):
+                cs.append(('%s_cut%d_gen%d' % (nm, k, gen), ops, ('cut', k, gen)))
+    return cs
+
+
 def boundary_cases():
     cs = [('empties', h_empties())]
     for k in range(4):
@@ -110,6 +130,7 @@ def boundary_cases():
     # directories of exactly 1 / 2 / 3 blocks, full to the last byte and one record more
     for nrec in (45, 46, 91, 92, 137, 138):
         cs.append(('blocks44_%d' % nrec, mc.h_boundary(nrec, 11)))
+    cs += truncated_cases()
     cs += mc.boundary_cases()
     return cs
 
@@ -188,14 +209,44 @@ def reopen(img):
                              (ino_index[id(c.inode)] if c.inode is not None else -1, number.get(id(c), -1))))
             dirs.append(recs)
         inodes = [(ino.extent_location(), ino.get_data_length()) for ino in iso.inodes]
-        lastbyte = max([e * BLOCK + ln for e, ln in inodes] + [0])
+        lastbyte = raw_lastbyte(img)
         level = iso.interchange_level
         out = io.BytesIO()
         iso.write_fp(out)
         iso.close()
     finally:
         time.time = saved
-    return (dirs, inodes, level, lastbyte), out.getvalue() == img
+    return (dirs, inodes, level, lastbyte), out.getvalue() == img, out.getvalue()
+
+
+def raw_files(img):
+    """(extent, length) of every non-directory record, read from the bytes (own parser)"""
+    _root, _date, dirs = mc.cut_dirs(img)
+    out = []
+    for _ext, data in dirs:
+        off, k = 0, 0
+        while off < len(data):
+            ln = data[off]
+            if ln == 0:
+                off = (off // BLOCK + 1) * BLOCK
+                continue
+            if k >= 2 and not data[off + 25] & 2:
+                out.append((struct.unpack_from('<I', data, off + 2)[0], struct.unpack_from('<I', data, off + 10)[0]))
+            off += ln
+            k += 1
+    return out
+
+
+def raw_lastbyte(img):
+    """the largest end of file data that lies inside the image (zero-length files do not count)"""
+    return max([e * BLOCK + ln for e, ln in raw_files(img) if ln > 0 and e * BLOCK + ln <= len(img)] + [0])
+
+
+def cut_image(img, k):
+    """cut inside the data of the last file"""
+    e, ln = max((e, ln) for e, ln in raw_files(img) if ln > 0)
+    off = [0, 1, ln // 2, min(BLOCK, ln - 1), ln - 1][k]
+    return img[:e * BLOCK + off]
 
 
 def ptr_extents(img):
@@ -230,8 +281,13 @@ def coq_egraph(g):
 
 def render(case):
     tree, img = build(case[1])
+    if len(case) > 2:
+        _cut, k, gen = case[2]
+        tree, img = None, cut_image(img, k)
+        if gen == 2:
+            img = reopen(img)[2]
     (rext, rlen), date, dirs = mc.cut_dirs(img)
-    graph, same = reopen(img)
+    graph, same, _second = reopen(img)
     exp = '; '.join('(%d, [%s])' % (e, '; '.join('(%d, %s)' % (z, zl(lit)) for z, lit in mc.rle(d))) for e, d in dirs)
     return '(%s, %s, (%d, %d), %s, %d, [%s], %s, %s)' % (
         'None' if tree is None else 'Some (%s)' % mc.coq_tree(tree), zl(date), rext, rlen, zl(ptr_extents(img)),
